@@ -288,12 +288,13 @@ func posOf(unset []string) string {
 }
 
 func TestC17(t *testing.T) {
-	rec := ev.New("C17", "case = (proto2 generated type with required fields of its own or in children reached through a field / required field / list / map / oneof, subset of those required fields left unset); every subset is enumerated per type (up to 2^8) with the required scalars set to the zero value of their kind and to 1, and the complete message and every single-field subset with 7 further boundary values, plus the completely empty message and the empty input; oracle = reference verdict: Marshal fails <=> proto.CheckInitialized fails; generated Unmarshal of the reference's AllowPartial encoding fails <=> the strict reference Unmarshal fails; non-trivial = >= 1 required field unset; distinct by (type, subset, value choice)")
+	rec := ev.New("C17", "case = (generated type - proto2, or proto3 with imported proto2 children - with required fields of its own or in children reached through a field / required field / list / map / oneof, subset of those required fields left unset); every subset is enumerated per type (up to 2^8) with the required scalars set to the zero value of their kind and to 1, and the complete message and every single-field subset with 7 further boundary values, plus the completely empty message and the empty input; oracle = reference verdict: Marshal fails <=> proto.CheckInitialized fails; generated Unmarshal of the reference's AllowPartial encoding fails <=> the strict reference Unmarshal fails; non-trivial = >= 1 required field unset; distinct by (type, subset, value choice)")
 	defer rec.Write()
 	useRecorder(rec)
 	defer func() { t.Log(rec.Summary()); fmt.Print(rec.SurveyReport()) }()
 	types := fmTypes(func(mt *MsgType) bool {
-		return mt.Info.Syntax == "proto2" && len(requiredSlots(mt.Desc, nil, 0, map[protoreflect.FullName]int{})) > 0
+		// (also proto3 messages whose children are proto2 messages with required fields)
+		return len(requiredSlots(mt.Desc, nil, 0, map[protoreflect.FullName]int{})) > 0
 	})
 	requireUsable(t, types, 20)
 	mine := shardTypes(types)
